@@ -117,9 +117,11 @@ def aecOf (v : Val) : AEC × Nat :=
      ai := (fNat ms AddressEventCountMapIndex.ae_address_index).getD 0, tf := fNat ms AddressEventCountMapIndex.ae_transport_flags },
    (fNat ms AddressEventCountMapIndex.ae_count).getD 0)
 
-/-- `m_address_event_counts[tmp] = tmp.ae_count` -/
+/-- `m_address_event_counts[tmp] = tmp.ae_count`: the map is keyed by the whole `AddressEventCount` read, whose `operator==`
+    compares the count as well – an entry equal in every member is entered once, entries that differ only in the count (a writer
+    that does not aggregate) stay separate -/
 def putAec (acc : List (AEC × Nat)) (e : AEC × Nat) : List (AEC × Nat) :=
-  if acc.any (·.1 == e.1) then acc.map fun x => if x.1 == e.1 then (x.1, e.2) else x else acc ++ [e]
+  if acc.any (· == e) then acc else acc ++ [e]
 
 /-- all of a list, or the first exception -/
 def allOk : List (Except RErr α) → Except RErr (List α)
